@@ -1493,3 +1493,24 @@ package log
 //@   modifies atomPtr[c.file], atomPtr[c.oldFile], fdOpen
 //@   nopanic[C05,C19]
 //@   ensures[C05:both-descriptors-released] atomPtr[c.file] == nil && atomPtr[c.oldFile] == nil && (old(atomPtr[c.file]) != nil ==> !fdOpen[old(atomPtr[c.file])]) && (old(atomPtr[c.oldFile]) != nil ==> !fdOpen[old(atomPtr[c.oldFile])])
+
+// ---- C02: which logger serves a tag -----------------------------------------------------------------
+// The proper underscore-delimited prefixes of a tag, longest first, are tag[:i] for the underscore
+// positions i > 0 from right to left; route() tries the literal entry, then "P_*" for each such P,
+// then root -- the statement of C02 as a function of (configured tag lists, root, tag).
+//@ spec fun stem(t string) string = has_suffix(t, "_*") ? t[:len(t)-2] : t
+//@ spec fun trimU(s string) string = has_suffix(s, "_") ? s[:len(s)-1] : s
+//@ spec fun parentWild(t string) string = trimU(stem(t)[:str_last(stem(t), '_')]) + "_*"
+//@ spec rec fun route(m gomap[string]Logger, root Logger, t string) Logger = has(m, t) ? m[t] : (str_last(stem(t), '_') <= 0 ? root : route(m, root, parentWild(t)))
+
+//@ func Refresh/findLoggerForTag
+//@   callee findLoggerForTag = self
+//@   requires cTags != nil && findLoggerForTag != nil
+//@   replay tag = tag
+//@   modifies
+//@   nopanic[C02]
+//@   decreases len(stem(tag))
+//@   ensures[C02:literal-entry-wins] has(cTags, tag) ==> result == cTags[tag]
+//@   ensures[C02:no-delimited-prefix-means-root] !has(cTags, tag) && str_last(stem(tag), '_') <= 0 ==> result == cRoot
+//@   ensures[C02:longest-listed-prefix-wins] !has(cTags, tag) && str_last(stem(tag), '_') > 0 && has(cTags, parentWild(tag)) ==> result == cTags[parentWild(tag)]
+//@   ensures[C02:route] result == route(cTags, cRoot, tag)
